@@ -117,7 +117,7 @@ func rulesC14(w *World, o *Out) {
 			n++
 			res := r.Ret.Results
 			okP := fl.DependsOnCall(res[0], func(c Callee) bool { return c.Name == "PickValidatorForMessage" && c.Static != pickK }) != nil
-			nm, _ := loadedField(res[1])
+			nm, _ := loadedField(canon(res[1]))
 			okA := nm == "Address"
 			okChain, okVal := false, false
 			for _, f := range FactsAt(r.Ret) {
@@ -200,18 +200,56 @@ func rulesC14(w *World, o *Out) {
 	if fvj := w.MustFunc(o, "x/evm/keeper", "", "filterValidatorsForJob"); fvj != nil {
 		o.Analysed(w.FuncKey(fvj))
 		n := 0
+		// the filter closure together with the helpers a later edit split it into
+		var filterFns []*ssa.Function
 		for _, g := range fvj.AnonFuncs {
+			for _, u := range unitFuncs(g) {
+				dup := false
+				for _, x := range filterFns {
+					if x == u {
+						dup = true
+					}
+				}
+				if !dup {
+					filterFns = append(filterFns, u)
+				}
+			}
+		}
+		inFilter := func(h *ssa.Function) bool {
+			for _, x := range filterFns {
+				if x == h {
+					return true
+				}
+			}
+			return false
+		}
+		for _, g := range filterFns {
 			for _, b := range g.Blocks {
 				r, ok := b.Instrs[len(b.Instrs)-1].(*ssa.Return)
-				if !ok || len(r.Results) != 1 {
+				if !ok || len(r.Results) != 1 || !isBoolType(r.Results[0].Type()) {
 					continue
 				}
 				bv, isC := boolConst(r.Results[0])
+				// slices.Contains(account.Traits, MEV) as the verdict: an acceptance under the MEV trait of that account
+				var containsTraitsOf ssa.Value
 				if !isC {
-					o.Fail("C14.R2", "filterValidatorsForJob|non-constant result", w.Pos(r.Pos()), "the job filter's verdicts must be explicit so that each acceptance can be matched to its conditions")
-					continue
-				}
-				if !bv {
+					if c, isCall := canonLocal(r.Results[0]).(*ssa.Call); isCall {
+						if h := c.Call.StaticCallee(); h != nil && inFilter(h) {
+							continue // the verdict of a helper of the filter: judged at that helper's own returns
+						}
+						if cal, okc := CalleeOf(c.Common()); okc && cal.Pkg == "slices" && strings.HasPrefix(cal.Name, "Contains") && !strings.HasPrefix(cal.Name, "ContainsFunc") && len(c.Call.Args) == 2 {
+							if k, isK := c.Call.Args[1].(*ssa.Const); isK && k.Value != nil && strings.Contains(k.Value.ExactString(), "mev") {
+								if nm, base := loadedField(c.Call.Args[0]); nm == "Traits" && base != nil {
+									containsTraitsOf = elemRoot(base)
+								}
+							}
+						}
+					}
+					if containsTraitsOf == nil {
+						o.Fail("C14.R2", "filterValidatorsForJob|non-constant result", w.Pos(r.Pos()), "the job filter's verdicts must be explicit so that each acceptance can be matched to its conditions")
+						continue
+					}
+				} else if !bv {
 					continue
 				}
 				n++
@@ -288,6 +326,9 @@ func rulesC14(w *World, o *Out) {
 				if all {
 					noReq = true
 				}
+				if containsTraitsOf != nil {
+					noReq, mev = false, chainElem != nil && containsTraitsOf == chainElem
+				}
 				o.Check("C14.R2", "filterValidatorsForJob|accepted only through its account on the requested chain", okChain, w.Pos(r.Pos()), "'return true' must be dominated by ExternalChainInfos[i].ChainReferenceID == chainID")
 				o.Check("C14.R2", "filterValidatorsForJob|MEV requirement met by that same account", noReq || mev, w.Pos(r.Pos()), "under an MEV requirement the accepted validator must carry the MEV trait on the chain-matched account, not on some other chain's account")
 			}
@@ -315,8 +356,30 @@ func rulesC14(w *World, o *Out) {
 			o.Check("C14.R3", "GetMessagesForRelaying|filter "+nme+" applied", ok, w.Pos(gmr.Pos()), "all five relay filters must be part of the conjunction")
 		}
 		if cl != nil && len(calls) == 5 {
+			// the conjunction may live in a helper the closure hands its verdict to: judge the returns of the
+			// function holding the filter calls, and require the closure to return that function's result as is
+			holder := cl
+			same := true
+			for _, s := range calls {
+				if hp := s.Instr.Parent(); hp != cl {
+					if holder != cl && holder != hp {
+						same = false
+					}
+					holder = hp
+				}
+			}
+			if holder != cl {
+				pass := same && isNewHelper(holder)
+				for _, r := range Returns(cl) {
+					c, isCall := canonLocal(r.Ret.Results[0]).(*ssa.Call)
+					if !isCall || c.Call.StaticCallee() != holder {
+						pass = false
+					}
+				}
+				o.Check("C14.R3", "GetMessagesForRelaying|result is the filter conjunction", pass, w.Pos(cl.Pos()), "the closure must return the verdict of the helper that evaluates the five filters")
+			}
 			// value returned for evm messages: every non-false contribution is a filter result dominated by the other four being true
-			for _, r := range Returns(cl) {
+			for _, r := range Returns(holder) {
 				v := canon(r.Ret.Results[0])
 				if bv, isC := boolConst(v); isC {
 					if bv {
@@ -499,11 +562,43 @@ func rulesC14(w *World, o *Out) {
 				if fs.base != "estimate" {
 					// ... and it is the relayer fee as stored (already rounded up), not the raw product
 					fromStored := false
+					// the rounded relayer fee: the Fees.RelayerFee field, or the very value stored into it
+					var relayerVals []ssa.Value
+					for _, rs := range storesToField(cf, "Fees", "RelayerFee") {
+						relayerVals = append(relayerVals, canonLocal(rs.Val))
+					}
+					isRounded := func(v ssa.Value) bool {
+						if nm, base := loadedField(v); nm == "RelayerFee" && base != nil {
+							if nt := namedOf(derefType(base.Type())); nt != nil && nt.Obj().Name() == "Fees" {
+								return true
+							}
+						}
+						for _, rv := range relayerVals {
+							if canonLocal(v) == rv {
+								return true
+							}
+						}
+						return false
+					}
+					// the call that produced this fee (for helpers: which argument feeds the base)
+					var producer *ssa.Call
+					switch x := canonLocal(st.Val).(type) {
+					case *ssa.Extract:
+						producer, _ = x.Tuple.(*ssa.Call)
+					case *ssa.Call:
+						producer = x
+					}
 					for c := range calls {
 						if cal, ok := CalleeOf(c.Common()); ok && cal.Pkg == "cosmossdk.io/math" && strings.HasPrefix(cal.Name, "NewInt") && len(c.Call.Args) == 1 {
-							if nm, base := loadedField(c.Call.Args[0]); nm == "RelayerFee" && base != nil {
-								if nt := namedOf(derefType(base.Type())); nt != nil && nt.Obj().Name() == "Fees" {
-									fromStored = true
+							arg := canonLocal(c.Call.Args[0])
+							if isRounded(arg) {
+								fromStored = true
+							}
+							if q, isP := arg.(*ssa.Parameter); isP && producer != nil && producer.Call.StaticCallee() == q.Parent() {
+								for i, pp := range q.Parent().Params {
+									if pp == q && i < len(producer.Call.Args) && isRounded(producer.Call.Args[i]) {
+										fromStored = true
+									}
 								}
 							}
 						}
@@ -539,6 +634,13 @@ func elemRoot(v ssa.Value) ssa.Value {
 			v = x.X
 		case *ssa.Field:
 			v = x.X
+		case *ssa.Parameter:
+			// the parameter of a helper introduced later stands for the argument at its only call site
+			if nv := canon(x); nv != ssa.Value(x) {
+				v = nv
+			} else {
+				return v
+			}
 		case *ssa.Alloc:
 			// range value copy: find the element stored into it
 			for _, r := range *x.Referrers() {
